@@ -105,8 +105,12 @@ pub struct ScenarioOutcome {
 /// One instance's whole history on the calling thread; returns the dumps after run 1 and run 2.
 fn play(entry: &crate::Entry, inst: &Instance, barrier: Option<&Barrier>) -> Result<(Db, Db, Db), String> {
    // construction and loading happen before the common start; the barrier is reached even if they panic
+   // programs with BYODS relations hold `Rc`s, so `dyn Prog` is not `Send`; the programs of this mode have plain
+   // relations and lattices only (all `Send`), and an instance is only ever used by one thread at a time
+   struct SendBox(Box<dyn crate::Prog>);
+   unsafe impl Send for SendBox {}
    let built = std::panic::catch_unwind(AssertUnwindSafe(|| {
-      let mut p = in_pool(&inst.construct, || (entry.new)());
+      let mut p = in_pool(&inst.construct, || SendBox((entry.new)())).0;
       for (rel, rows) in &inst.input.rels {
          p.load(rel, rows);
       }
@@ -117,7 +121,12 @@ fn play(entry: &crate::Entry, inst: &Instance, barrier: Option<&Barrier>) -> Res
    }
    let mut p = built.map_err(panic_message)?;
    std::panic::catch_unwind(AssertUnwindSafe(|| {
-      in_pool(&inst.run1, || p.run());
+      let mut sp = SendBox(p);
+      in_pool(&inst.run1, || {
+         let sp = &mut sp;
+         sp.0.run()
+      });
+      let mut p = sp.0;
       let d1 = p.dump();
       let mut model = inst.input.clone();
       for (rel, row) in &inst.pushes {
@@ -127,7 +136,12 @@ fn play(entry: &crate::Entry, inst: &Instance, barrier: Option<&Barrier>) -> Res
          p.load(rel, std::slice::from_ref(row));
          model.rels.entry(rel.clone()).or_default().push(row.clone());
       }
-      in_pool(&inst.run2, || p.run());
+      let mut sp = SendBox(p);
+      in_pool(&inst.run2, || {
+         let sp = &mut sp;
+         sp.0.run()
+      });
+      let p = sp.0;
       let d2 = p.dump();
       (d1, d2, model)
    }))
